@@ -26,6 +26,10 @@ def cases(draw, nums):
         c = draw(gen.curves(0, 3 if rational else 4, 4, nums=nums, rational=rational, interval=(F(a), F(a + L)), grid=L,
                             values=st.integers(-12, 12).map(F)))
         return {"curve": c, "history": draw(st.sampled_from(lib.HISTORY_MODES))}
+    if rational and draw(st.integers(0, 3)) == 0:
+        # rational curves of degree 4 (the quotient rule then multiplies polynomials of degree 8): few knots
+        c = draw(gen.curves(4, 4, 1, nums=nums, rational=True, regimes=False))
+        return {"curve": c, "history": None}
     c = draw(gen.curves(0, 3 if rational else 4, 3 if rational else 4, nums=nums, rational=rational))
     return {"curve": c, "history": draw(st.sampled_from(lib.HISTORY_MODES))}
 
